@@ -314,6 +314,13 @@ def random_schema(rng, idx):
         else: fl.append('%s:%s' % (f, rng.choice(['int', 'int', 'int', 'short', 'ubyte', 'long']))); used.add(f)
     for extra, ty in (('zz_enum_field', ens[0]), ('zz_enum_vector', '[%s]' % ens[0]), ('zz_string', 'string'), ('zz_int', 'int')):
         if extra not in used: fl.append('%s:%s' % (extra, ty)); used.add(extra)
+    for ln in rng.sample([3, 8, 11, 16, 19, 24], rng.choice([1, 2, 3])):
+        u = rand_ident(rng, ln).decode()
+        sibs = [u + '_type_' + rand_ident(rng, rng.choice([1, 4, 9]), IDCH).decode(), u + '_' + rand_ident(rng, rng.choice([1, 4]), IDCH).decode()]
+        if u in RESERVED or any(x in used for x in [u, u + '_type'] + sibs): continue
+        fl.append('%s:%s' % (u, rng.choice(['U', 'U', '[U]']))); used.add(u); used.add(u + '_type')
+        for x in sibs:
+            if x not in used and x != u + '_type': fl.append('%s:int' % x); used.add(x)
     o.append('table R {\n' + ''.join('  %s;\n' % x for x in fl) + '}')
     o.append('root_type R;')
     return '\n'.join(o) + '\n'
